@@ -7,6 +7,7 @@ Part 2 (`Props/C01Red.lean`): the reduction iterator and the serial walk.
 -/
 import ToastyVerif.Model.Walk
 import ToastyVerif.Props.C13
+import ToastyVerif.Gen.WalkWorker
 
 namespace C01
 open Walk
@@ -21,6 +22,10 @@ theorem bits_release : ∀ f, f < 16 → (Gen.walk_release f = true ↔ ∀ j, j
   decide
 
 theorem stop_on_apex : Gen.walk_stop_on_apex = true ∧ Gen.walk_pre_readied_when_dead = true := by decide
+
+/-- the worker loop has the shape the model's worker has: poll; on Empty exit iff the done flag is set, else
+poll again; on an item run the callback once, report the tile, loop -/
+theorem worker_loop : Gen.WalkWorker.loop_shape_ok = true := by decide
 
 /-! ### what the prologue must deliver -/
 
